@@ -97,6 +97,26 @@ def run(model, res, tier):
     res.assumptions += ['Python\'s native order on numbers (bool excluded), on strings and on serials is a total order (no NaN)',
                         'date converters are summarised as serial(x) on date-time input (validated by C13)']
     res.trusted += ['hxsa abstract interpreter (absint.py) and its builtin models (absmodels.py)', 'CPython ast']
+    kernel_rules(model, res, c)
+    acts = roles.binary_actions(g)
+    # purity of the comparison path
+    m, f = acts['logic']
+    key = (m.name, m.qualname_of(f))
+    region = c.cg.reachable([key])
+    purity.check_region(res, c, 'R3', None, region, 'a comparison')
+    purity.check_memo(res, c, 'R3', region, 'a function on the comparison path')
+    res.analysed['functions on the comparison path'] = len(region)
+    from . import c13
+    um = [mm for mm in model.modules.values() if 'serialize_date' in mm.functions and 'parse_date' in mm.functions]
+    if um:
+        H.borrow(res, 'R4', 'date conversion authority', lambda tmp: c13._r1(model, tmp, c, um[-1]))
+        H.borrow(res, 'R4', 'date converters', lambda tmp: c13._r2(model, tmp, c, um[-1]))
+
+
+def kernel_rules(model, res, c):
+    """R1/R2 on every (left tag, right tag, operator) cell of the comparison action (also borrowed by C04: a comparison node
+    of the tree evaluates to the relation of the defined order)."""
+    g = c.grammar
     acts = roles.binary_actions(g)
     lex = roles.operator_lexemes(g, list(OPS))
     opaque = H.date_opaque(model)
@@ -122,19 +142,7 @@ def run(model, res, tier):
                 res.ob('R1', 'comparison action', {'left': ta, 'right': tb}, True, 'undecided (unmodelled construct)')
                 continue
             _check_cell(res, acts, ta, tb, cell)
-    res.floor('abstract runs of the comparison action', n_runs, 216)
-    # purity of the comparison path
-    m, f = acts['logic']
-    key = (m.name, m.qualname_of(f))
-    region = c.cg.reachable([key])
-    purity.check_region(res, c, 'R3', None, region, 'a comparison')
-    purity.check_memo(res, c, 'R3', region, 'a function on the comparison path')
-    res.analysed['functions on the comparison path'] = len(region)
-    from . import c13
-    um = [mm for mm in model.modules.values() if 'serialize_date' in mm.functions and 'parse_date' in mm.functions]
-    if um:
-        H.borrow(res, 'R4', 'date conversion authority', lambda tmp: c13._r1(model, tmp, c, um[-1]))
-        H.borrow(res, 'R4', 'date converters', lambda tmp: c13._r2(model, tmp, c, um[-1]))
+    res.soft_floor('abstract runs of the comparison action', n_runs, 216)
 
 
 def _check_cell(res, acts, ta, tb, cell):
